@@ -31,6 +31,13 @@ type functionOperator struct {
 	call         FunctionCall
 	scalarPoints [][]float64
 	pointBuf     []promql.Point
+
+	// Evaluation grid, needed by scalar() to yield NaN for steps at which
+	// its argument delivers nothing at all.
+	maxt        int64
+	step        int64
+	currentStep int64
+	stepsBatch  int
 }
 
 type noArgFunctionOperator struct {
@@ -108,6 +115,13 @@ func NewFunctionOperator(funcExpr *parser.Call, call FunctionCall, nextOps []mod
 		vectorIndex:  0,
 		scalarPoints: scalarPoints,
 		pointBuf:     make([]promql.Point, 1),
+		maxt:         opts.End.UnixMilli(),
+		step:         opts.Step.Milliseconds(),
+		currentStep:  opts.Start.UnixMilli(),
+		stepsBatch:   stepsBatch,
+	}
+	if f.step == 0 {
+		f.step = 1
 	}
 
 	for i := range funcExpr.Args {
@@ -162,8 +176,12 @@ func (o *functionOperator) Next(ctx context.Context) ([]model.StepVector, error)
 	}
 
 	if len(vectors) == 0 {
+		if o.funcExpr.Func.Name == "scalar" {
+			return o.nextScalarNaNs(), nil
+		}
 		return nil, nil
 	}
+	o.currentStep += o.step * int64(len(vectors))
 
 	scalarIndex := 0
 	for i := range o.nextOps {
@@ -192,7 +210,12 @@ func (o *functionOperator) Next(ctx context.Context) ([]model.StepVector, error)
 		// scalar() depends on number of samples per vector and returns NaN if len(samples) != 1.
 		// So need to handle this separately here, instead of going via call which is per point.
 		if o.funcExpr.Func.Name == "scalar" {
-			if len(vector.Samples) <= 1 {
+			if len(vector.Samples) == 1 {
+				continue
+			}
+			if len(vector.Samples) == 0 {
+				vectors[batchIndex].Samples = append(vector.Samples, math.NaN())
+				vectors[batchIndex].SampleIDs = append(vector.SampleIDs, 0)
 				continue
 			}
 
@@ -226,6 +249,24 @@ func (o *functionOperator) Next(ctx context.Context) ([]model.StepVector, error)
 	}
 
 	return vectors, nil
+}
+
+// nextScalarNaNs serves the steps the argument of scalar() did not deliver:
+// scalar() of an empty vector is NaN.
+func (o *functionOperator) nextScalarNaNs() []model.StepVector {
+	if o.currentStep > o.maxt {
+		return nil
+	}
+	pool := o.GetPool()
+	batch := pool.GetVectorBatch()
+	for i := 0; i < o.stepsBatch && o.currentStep <= o.maxt; i++ {
+		sv := pool.GetStepVector(o.currentStep)
+		sv.Samples = append(sv.Samples, math.NaN())
+		sv.SampleIDs = append(sv.SampleIDs, 0)
+		batch = append(batch, sv)
+		o.currentStep += o.step
+	}
+	return batch
 }
 
 func (o *functionOperator) loadSeries(ctx context.Context) error {
